@@ -23,11 +23,13 @@ if ! go build $MODFLAG -o $BIN ./cmd/vcheck 2> $BIN.err; then
   echo "BUILD-FAILED (the tree does not compile with the checker; no verdict)"; cat $BIN.err; exit 2
 fi
 case "$ID" in
-  C01|C02|C03|C04|C08|C10|C11|C12|C16)
-    # main stage, then the write-monitor stage (frame conditions checked in the instrumented build;
-    # it merges its coverage into the evidence file the main stage wrote)
+  C01|C02|C03|C04|C08|C10|C11|C12|C16|C13|C14|C15|C17)
+    # main stage, then the stages that need the instrumented build: the write monitor (frame
+    # conditions checked on the writes themselves) and the concurrent stage (the property's
+    # operations called by several callers at once on objects of their own); they merge their
+    # coverage into the evidence file the main stage wrote
     ./$BIN "$ID" "$TIER"; rc1=$?
-    ./c18.sh watch "$ID" "$TIER"; rc2=$?
+    ./c18.sh stages "$ID" "$TIER"; rc2=$?
     if [ $rc1 -eq 1 ] || [ $rc2 -eq 1 ]; then exit 1; fi
     if [ $rc1 -ne 0 ]; then exit $rc1; fi
     exit $rc2 ;;
